@@ -1322,9 +1322,20 @@ impl GlobalInferenceCtx<'_> {
                             let items = items.clone();
                             let mut item_tys = items.iter().map(|item| self.tys[self.loc][*item]);
                             let Some(first) = item_tys.next() else { continue };
-                            let Some(sub_ty) =
-                                item_tys.try_fold(first, |max, item| max.max(&item).map(Intern::new))
-                            else {
+                            let Some(sub_ty) = item_tys.try_fold(first, |max, item| {
+                                max.max(&item).map(Intern::new).or_else(|| {
+                                    // `max` knows nothing about arrays. an inner literal which is
+                                    // still anonymous takes the type of its widened sibling
+                                    // (`.[.[5000000000, 1], .[2, 3]]`)
+                                    if item.is_weak_replaceable_by(&max) {
+                                        Some(max)
+                                    } else if max.is_weak_replaceable_by(&item) {
+                                        Some(item)
+                                    } else {
+                                        None
+                                    }
+                                })
+                            }) else {
                                 continue;
                             };
                             if sub_ty == previous_sub_ty {
